@@ -470,7 +470,44 @@ func runC19(r *Run) {
 		sc := r.newSrvScen(o)
 		if late {
 			sc.mixedFrom(bl, 6)
+			// contacts that are already known (routing-table entries holding a valid write token) when the list
+			// that covers them is installed: from then on their datagrams have no effect either
+			type earlyC struct {
+				src *net.UDPAddr
+				id  [20]byte
+				tok []byte
+			}
+			var early []earlyC
+			for j := 0; j < 3 && !sc.dead; j++ {
+				src, id := sc.addrFor(bl, true), sc.r.randID()
+				sc.send(src, sc.mkQuery("ping", id, id))
+				early = append(early, earlyC{src, id, sc.fetchToken(src, id)})
+			}
 			sc.setBlocklist(bl)
+			for _, e := range early {
+				if !sc.isBlocked(e.src.IP) {
+					continue
+				}
+				for _, m := range []string{"announce_peer", "put", "find_node"} {
+					q := sc.mkQuery(m, e.id, sc.r.randID())
+					q.token, q.hasTok = e.tok, e.tok != nil
+					if q.port == nil {
+						p := int64(6881)
+						q.port = &p
+					}
+					p0, puts0, cbs0 := 0, sc.st.numPuts(), sc.numCbs()
+					if sc.ps != nil {
+						p0 = sc.ps.numAdds()
+					}
+					sc.ev("%s from %s, a routing-table entry with a valid token, after the blocklist covering it was installed", m, e.src)
+					sc.send(e.src, q)
+					time.Sleep(200 * time.Microsecond)
+					if (sc.ps != nil && sc.ps.numAdds() != p0) || sc.st.numPuts() != puts0 || sc.numCbs() != cbs0 {
+						sc.viol("C19", "datagram from a blocklisted source changed stored data")
+					}
+					sc.r.hist("inbound/blocked-known-contact/" + m)
+				}
+			}
 		}
 		sc.mixedFrom(bl, 25)
 		for j := 0; j < 3; j++ {
